@@ -45,19 +45,36 @@ META = dict(
                'self- and mutually including files) and repositories '
                'raising CIMError with status codes 1..28 at the n-th call of '
                'each operation the compiler uses, for MOFWBEMConnection and '
-               'FakedWBEMConnection. Held-on-K-executions evidence.',
+               'FakedWBEMConnection. Also: other line structures (CR, CR LF, '
+               'LF CR CR, TAB, VT/FF in front of tokens and as line ends), '
+               'comments spanning lines in front of tokens, numbers of '
+               '4 300 - 12 000 digits in every base, namespace pragmas in '
+               'front of declarations and dependency look-ups, classes '
+               'depending on present/missing/unnamed classes through '
+               'references and EmbeddedInstance, subclasses redefining '
+               'elements with Override (for the resolving mock repository), '
+               'files that are not UTF-8 or do not define what their name '
+               'promises, and sessions on ONE compiler mixing compile_file '
+               'and compile_string while files get damaged and repaired '
+               '(retry of the failed call), each later call compared with '
+               'a fresh compiler. Held-on-K-executions evidence.',
     level_note='Trusted: the harness notion of "position inside the input" '
-               '(1 <= line <= number of lines of the text that exc.file '
-               'names, 0 <= column <= longest line + 1); the reference MOF '
-               'and strict fingerprints for the reuse check.',
+               '(exc.file is the input that has the error where the harness '
+               'knows it - a string whose nested files are valid -, 1 <= '
+               'line <= number of lines of the text that exc.file names, 0 '
+               '<= column <= length of THAT line + 1; the exact token is not '
+               'demanded: a context that shows another line is counted, not '
+               'judged); the reference MOF and strict fingerprints for the '
+               'reuse check; a fresh compiler as reference for sessions.',
     design_ref='DESIGN.md section 3, C09',
     rule='case = one compiler object fed a sequence of inputs (evaluation = '
          'one compile call); non-trivial if the input reached a grammar '
          'action or an error callback (outcome is an error, or objects were '
          'produced); distinct by (outcome class, message stem, input hash)',
     assumptions=[
-        'inputs are character strings (files are written as UTF-8); byte '
-        'sequences that are not UTF-8 are outside the quantifier',
+        'string inputs are character strings; files on disk (include '
+        'structure, search path content) may hold any bytes: a file that '
+        'is not UTF-8 must end in MOFCompileError like any other bad input',
         'OSError is accepted only from compile_file() finding/opening a '
         'MOF or include file (missing file, or a path that is not a '
         'readable file)',
@@ -356,7 +373,7 @@ REPLACEMENTS = ['NULL', 'true', '1', '"s"', "'c'", '{', '}', '(', ')', ';',
 WHITESPACE = ['\r', '\r\n', '\n\r', '\n\r\r', '\r\r\r', '\t', '\n\t\r', '\x0b',
               '\x0c', '\n\n\n', ' \r \r ', '\n\r\r\r ', '\t\t', '\n \t', '\r\n\r\n']
 LINE_ENDS = ['\r\n', '\n\r', '\r', '\n\r\r', '\n\t', '\r\r\n', '\n\r\r\r\r',
-             '\n\n']
+             '\n\n', '\n\r\r\r', '\n\r\r\r\r\r\r\r\r']
 COMMENTS = ['/*\n*/', '/*\n\n\n*/', '/* a\n   b\n   c */', '/**\n * doc\n */\n',
             '/* x */', '// line\n', '/*\r\n\r\n*/', '/*\n"\n*/', '/*\n//\n*/',
             '/*' + '\n' * 40 + '*/', '/*\n*//*\n*/']
@@ -514,8 +531,8 @@ PRAGMA_PARAMS = ['"1:"', '"//h/ns"', '""', '"root/x"', '"/root/x"',
                  '"1"', '"_"', '"root//x"', '"wbem:root"']
 
 
-PRAGMA_NAMESPACES = ['other', 'root/other', 'root/cimv2', 'a/b/c', 'interop',
-                     'ROOT/CIMV2']
+PRAGMA_NAMESPACES = ['other', 'root/other', 'root/cimv2', 'n1/n2/n3',
+                     'interop', 'ROOT/Other']
 EMBEDDED_QUALS = ['[EmbeddedInstance] ', '[EmbeddedInstance("VF_Base")] ',
                   '[EmbeddedInstance("Nope")] ', '[EmbeddedInstance(NULL)] ',
                   '[EmbeddedInstance("")] ', '[EmbeddedObject] ',
@@ -523,10 +540,11 @@ EMBEDDED_QUALS = ['[EmbeddedInstance] ', '[EmbeddedInstance("VF_Base")] ',
 ALL_KINDS = ['qualdecl', 'classprop', 'classprop', 'qualval', 'instance',
              'instance', 'instance', 'pragma', 'refdecl', 'method',
              'fragment', 'duplicate', 'alias', 'embedded', 'instkeys',
-             'depclass', 'depclass', 'subclass']
+             'depclass', 'depclass', 'subclass', 'nsdep', 'nsdep']
 # what a repository that resolves classes (the mock) looks at
-RESOLVER_KINDS = ['subclass', 'subclass', 'subclass', 'depclass', 'classprop',
-                  'qualval', 'refdecl', 'method', 'duplicate']
+RESOLVER_KINDS = ['subclass', 'subclass', 'subclass', 'subclass', 'subclass',
+                  'depclass', 'classprop', 'qualval', 'refdecl', 'method',
+                  'duplicate']
 
 
 def directed(rng, n, kinds=None):
@@ -549,6 +567,13 @@ def directed(rng, n, kinds=None):
          '[%s : %s] ' % (rng.choice(QNAMES), rng.choice(FLAVORS)),
          '[Key, Key] ', '[] '])
     kind = rng.choice(kinds or ALL_KINDS)
+    nsdep = kind == 'nsdep'
+    if nsdep:
+        # a namespace pragma, declarations, then a construct that makes the
+        # compiler look something up in that namespace
+        kind = rng.choice(['depclass', 'depclass', 'refdecl', 'instance',
+                           'subclass', 'classprop', 'alias'])
+        calm = True
     if kind == 'depclass':
         # classes whose elements depend on other classes (references,
         # embedded instances) that exist, are missing or are not named
@@ -573,10 +598,13 @@ def directed(rng, n, kinds=None):
     elif kind == 'subclass':
         # redefinition of inherited elements with and without Override
         feats = []
-        for k in range(rng.choice([1, 1, 2, 3])):
-            ov = rng.choice(['', '', '[Override("%s")] ' % rng.choice(PROPS),
+        for k in range(rng.choice([1, 1, 1, 2, 3])):
+            ov = rng.choice(['', '[Override("%s")] ' % rng.choice(PROPS),
                              '[Override("%s")] ' % rng.choice(PROPS),
-                             '[Override] ', '[Override(NULL)] ',
+                             '[Override("%s")] ' % rng.choice(PROPS),
+                             '[Override] ', '[Override] ',
+                             '[Override("NoSuch%d")] ' % k,
+                             '[Override("")] ', '[Override(NULL)] ',
                              '[Override("m")] ', '[Key] ',
                              '[Key, Override("Id")] '])
             what = rng.choice(['prop', 'prop', 'prop', 'ref', 'meth'])
@@ -696,17 +724,17 @@ def directed(rng, n, kinds=None):
             'class VK%d { [Key] string k[]; }; instance of VK%d '
             '{ k = {"a"}; };' % (n, n)])
     pre = PRE
-    if rng.random() < 0.18 and kind != 'pragma':
+    if (nsdep or rng.random() < 0.12) and kind != 'pragma':
         # a namespace pragma in front of everything, or between the
         # declarations and the construct: every look-up that follows
         # (qualifier declarations, superclasses, dependent classes, classes
         # of instances) happens in that namespace
         pragma = '#pragma namespace ("%s")\n' % rng.choice(PRAGMA_NAMESPACES)
-        if rng.random() < 0.35:
+        if rng.random() < (0.15 if nsdep else 0.35):
             pre = pragma + PRE
         else:
             quals = PRE[:PRE.index('class VF_Base')]
-            body = pragma + rng.choice(['', quals, quals, quals,
+            body = pragma + rng.choice(['', quals, quals, quals, quals,
                                         PRE[:PRE.index('\n') + 1]]) + body
         kind += '+pragma-namespace'
     return 'directed:' + kind, pre + body + '\n'
@@ -827,20 +855,18 @@ def block_comment_newlines(src, upto):
 
 
 def true_line_from_context(exc, lines):
-    """The line index (0-based) that the context lines of the error show,
-    if they determine one."""
+    """The line index (0-based) that the context lines of the error show
+    (cut out of the text at the offset of the token): of the lines with that
+    text the one nearest to the reported line number."""
     try:
-        shown = list(exc.context[:-1])
+        shown = exc.context[-2].strip('\r\n')
+        near = exc.lineno - 1
     except Exception:  # pylint: disable=broad-except
         return None
-    if not shown:
+    hits = [k for k, x in enumerate(lines) if x.strip('\r\n') == shown]
+    if not hits:
         return None
-    stripped = [x.strip('\r\n') for x in lines]
-    hits = [k for k in range(len(stripped))
-            if stripped[k] == shown[-1] and
-            stripped[max(0, k - len(shown) + 1):k + 1] ==
-            shown[-(min(len(shown), k + 1)):]]
-    return hits[0] if len(hits) == 1 else None
+    return min(hits, key=lambda k: (abs(k - near), k))
 
 
 def check_position(ctx, exc, text, files, detail, expect_file=False):
@@ -914,6 +940,13 @@ def check_position(ctx, exc, text, files, detail, expect_file=False):
             k = block_comment_newlines(src, offset)
             if k and true + 1 - exc.lineno == k:
                 key = 'position.line.newlines-in-block-comment-not-counted'
+            elif true + 1 < exc.lineno and \
+                    not passes_through(exc, 'p_error'):
+                # raised by a grammar action: the line is where the lexer
+                # stands (the look-ahead token), the column that of the
+                # first token of the production
+                key = 'position.grammar-action.line-of-lookahead-token.' \
+                    'column-of-first-token'
             else:
                 key = 'position.line-and-column-of-different-lines'
         ctx.violation(key + sfx,
@@ -998,7 +1031,7 @@ def register(ctx, out, text):
 
 def gen_input(ctx, rng, n, kinds=None):
     label, text = _gen_input(ctx, rng, n, kinds)
-    if rng.random() < 0.12:
+    if rng.random() < 0.2:
         return label + '+line-ends', line_structure(rng, text)
     return label, text
 
@@ -1099,7 +1132,7 @@ def mode_string(ctx, rng, i):
         out = judge(ctx, 'compile_string', exc, text, detail)
         register(ctx, out, text)
         sample(ctx, label, text, out)
-        if exc is not None:
+        if exc is not None and (n < 2 or rng.random() < 0.5):
             if not reuse_check(ctx, comp, handle, n, detail):
                 handle = MOFWBEMConnection()
                 comp = MOFCompiler(handle, log_func=None, **kw)
@@ -1109,9 +1142,16 @@ def mode_faked(ctx, rng, i):
     conn = FakedWBEMConnection()
     failed = False
     history = []
+    pre_there = False
     for n in range(rng.choice([2, 3, 4])):
         label, text = gen_input(ctx, rng, n, RESOLVER_KINDS)
-        ns = rng.choice([None, None, 'root/cimv2', 'root/nonexistent'])
+        ns = rng.choice([None, None, None, 'root/cimv2', 'root/cimv2', None,
+                         'root/nonexistent'])
+        if pre_there and text.startswith(PRE) and rng.random() < 0.8:
+            # the mock rejects the classes of the preamble the second time
+            # (they exist): go on with what follows it
+            text = text[len(PRE):]
+            label += '-pre'
         ctx.evaluated()
         ctx.cls('faked/' + label)
         history.append(short(text, 300))
@@ -1127,6 +1167,13 @@ def mode_faked(ctx, rng, i):
         register(ctx, out, text)
         sample(ctx, label, text, out)
         failed = failed or exc is not None
+        if not pre_there and text.startswith(PRE) and \
+                ns != 'root/nonexistent':
+            try:
+                conn.GetClass('VF_Assoc', LocalOnly=True)
+                pre_there = True
+            except Error:
+                pass
     if failed and ctx.state['ref_faked'] is not None:
         ctx.count('reuse-check')
         detail = {'api': 'compile_mof_string', 'earlier_inputs': history}
@@ -1199,7 +1246,7 @@ def _mode_file(ctx, rng, i, d):
     os.makedirs(os.path.join(d, 'sub'))
     shape = rng.choice(['self', 'mutual', 'missing', 'chain', 'chain',
                         'error-in-include', 'dependency', 'dependency',
-                        'deep-missing', 'not-utf8'])
+                        'dependency', 'deep-missing', 'not-utf8'])
     content = {}
     body = lambda n: directed(rng, n)[1][len(PRE):] if rng.random() < 0.5 \
         else 'class F%d_%d { string p; };\n' % (i % 1000, n)  # noqa: E731
@@ -1236,6 +1283,8 @@ def _mode_file(ctx, rng, i, d):
         content['main.mof'] = rng.choice(['', PRE, PRE]) + rng.choice([
             'class FD%d : VF_Dep { [Description("x")] string q; };\n' % i,
             'instance of VF_Dep { p = "x"; };\n',
+            'instance of VF_Dep { p = "x"; };\n',
+            'instance of vf_dep as $d { p = "x"; };\n',
             'class FD%d { VF_Dep REF r; };\n' % i,
             'class FD%d { [EmbeddedInstance("VF_Dep")] string e; };\n' % i,
             'class FD%d { uint8 m(VF_Dep REF a); };\n' % i,
@@ -1301,6 +1350,8 @@ SESSION_FILES = {
     'VS_Dep.mof': 'class VS_Dep { [Key] string k; string p; };\n',
     'other.mof': PRE + 'class SO_Other : VS_Dep { string q; };\n'
                  'instance of VS_Dep { k = "1"; p = "x"; };\n',
+    'inst.mof': PRE + 'instance of VS_Dep { k = "2"; };\n'
+                'class SI_Ref { VS_Dep REF r; };\n',
 }
 SESSION_VICTIMS = ['a.mof', 'sub/c.mof', 'VS_Dep.mof', 'main.mof']
 TAILS_BAD = ['class ST { string p = ; };', '$', 'class ST { uint8 u = 300; };',
@@ -1348,6 +1399,11 @@ def session_call(rng, d, damaged):
     of a session."""
     r = rng.random()
     lines = '\n' * rng.choice([0, 1, 3, 10, 40])
+    if damaged and r < 0.45:
+        # the file that reaches the damaged one
+        name = rng.choice(['other.mof', 'inst.mof']) \
+            if 'VS_Dep.mof' in damaged else 'main.mof'
+        return 'file:' + name, 'file', os.path.join(d, name), None, False
     if r < 0.35:
         name = rng.choice(['main.mof', 'main.mof', 'other.mof', 'a.mof',
                            'sub/c.mof', 'absent.mof'])
@@ -1431,7 +1487,7 @@ def _mode_session(ctx, rng, i, d):
             expect_file = False
         else:
             label, api, arg, text, expect_file = session_call(
-                rng, d, bool(damaged))
+                rng, d, damaged)
         ns = 'root/s%d' % step
         files = {os.path.abspath(os.path.join(d, n)): (
             c if isinstance(c, bytes) else re.sub('\r\n?', '\n', c))
